@@ -66,3 +66,21 @@ Theorem C13_noiseless3_capacity : forall r', length r' = 3%nat -> nonneg_l r' = 
   rden (mi_chan_data 3 noiseless3 r') <= log2 3.
 Proof. exact noiseless3_capacity. Qed.
 Print Assumptions C13_noiseless3_capacity.
+
+(* closed forms for channels of any size (Proofs/C13_Closed.v) *)
+From Verif Require Import C13_Closed.
+From Coq Require Import Permutation.
+Theorem C13_noiseless_capacity : forall n r', (0 < n)%nat -> length r' = n -> nonneg_l r' = true -> (qsum r' == 1)%Q ->
+  rden (mi_chan_data n (identity_chan n) r') <= log2 (INR n).
+Proof. exact noiseless_capacity. Qed.
+Print Assumptions C13_noiseless_capacity.
+Theorem C13_noiseless_uniform_rate : forall n, (0 < n)%nat -> rden (mi_chan_data n (identity_chan n) (C13_Closed.unif n)) = log2 (INR n).
+Proof. exact noiseless_uniform_rate. Qed.
+Print Assumptions C13_noiseless_uniform_rate.
+(* symmetric channels: every row a permutation of one row *)
+Theorem C13_symmetric_capacity : forall m (P : chan) (row r' : list Q),
+  (forall x, In x P -> Permutation row x) -> length row = m -> (0 < m)%nat -> nonneg_l row = true -> (qsum row == 1)%Q ->
+  length r' = length P -> nonneg_l r' = true -> (qsum r' == 1)%Q ->
+  rden (mi_chan_data m P r') <= log2 (INR m) - entropy_list row.
+Proof. exact symmetric_capacity. Qed.
+Print Assumptions C13_symmetric_capacity.
